@@ -1246,6 +1246,44 @@ fn grid() {
                 }
             }
         }
+        // Option / Result collects into boxed slices and vectors from a source that fails more than once
+        // and counts what is taken from it: which error comes back and how far the source was consumed
+        // must be std's; and a source that is not fused (None first, items afterwards) yields nothing
+        {
+            use std::cell::Cell;
+            let items: [Result<u32, &str>; 6] = [Err("first"), Ok(2), Err("second"), Ok(4), Ok(5), Err("third")];
+            let mut bad = 0usize;
+            for start in 0..items.len() {
+                for end in start..=items.len() {
+                    let (ts, tb, tv) = (Cell::new(0usize), Cell::new(0usize), Cell::new(0usize));
+                    let sr: Result<std::boxed::Box<[u32]>, &str> = items[start..end].iter().cloned().inspect(|_| ts.set(ts.get() + 1)).collect();
+                    let br: Result<bumpalo::boxed::Box<[u32]>, &str> = items[start..end].iter().cloned().inspect(|_| tb.set(tb.get() + 1)).collect_in(&bump);
+                    let vr: Result<BVec<u32>, &str> = items[start..end].iter().cloned().inspect(|_| tv.set(tv.get() + 1)).collect_in(&bump);
+                    let so: Option<std::boxed::Box<[u32]>> = items[start..end].iter().cloned().map(|r| r.ok()).collect();
+                    let bo: Option<bumpalo::boxed::Box<[u32]>> = items[start..end].iter().cloned().map(|r| r.ok()).collect_in(&bump);
+                    let s1 = sr.map(|b| b.to_vec());
+                    if s1 != br.map(|b| b.to_vec()) || s1 != vr.map(|v| v.to_vec()) || ts.get() != tb.get() || ts.get() != tv.get()
+                        || so.map(|b| b.to_vec()) != bo.map(|b| b.to_vec()) {
+                        bad += 1;
+                        if bad <= 2 { println!("Q box_collect_failing_source range={}..{} | differs taken_std={} taken_box={} taken_vec={} | -", start, end, ts.get(), tb.get(), tv.get()); }
+                    }
+                }
+            }
+            struct Flaky(u32);
+            impl Iterator for Flaky {
+                type Item = u32;
+                fn next(&mut self) -> Option<u32> { self.0 += 1; match self.0 { 1 => None, 2 => Some(1), 3 => Some(2), _ => None } }
+            }
+            let sb: std::boxed::Box<[u32]> = Flaky(0).collect();
+            let b1 = bumpalo::boxed::Box::<[u32]>::from_iter_in(Flaky(0), &bump);
+            let b2: bumpalo::boxed::Box<[u32]> = Flaky(0).collect_in(&bump);
+            let b3 = BVec::from_iter_in(Flaky(0), &bump);
+            if sb[..] != b1[..] || sb[..] != b2[..] || sb[..] != b3[..] {
+                bad += 1;
+                println!("Q box_collect_unfused_source | {:?}/{:?}/{:?} | {:?}", &b1[..], &b2[..], &b3[..], &sb[..]);
+            }
+            println!("Q box_collect_failing_sweep | {} | same", if bad == 0 { "same".to_string() } else { format!("{}_cases_differ", bad) });
+        }
         // C15 / C13: the draining iterators under the iterator adaptors that skip items (nth, skip,
         // step_by, nth_back, last, rev): what is returned, what stays in the vector and what is
         // dropped when, against std with a drop ledger; every element is dropped exactly once
